@@ -13,7 +13,7 @@
 From Coq Require Import NArith ZArith List Bool.
 From ST Require Import Base.Outcome Base.Units Utf.Spec Utf.Tokens Utf.Model Utf.ProofsGeneric Utf.ProofsC01 Utf.ProofsC02 Utf.ApiCoverage.
 From ST Require Utf.LeafBridge Gen.Leaf.
-From ST Require Utf.LoopBridge Utf.LoopBridgeValidate.
+From ST Require Utf.LoopBridge Utf.LoopBridgeValidate Utf.LoopBridgeExtract.
 Import ListNotations.
 Local Open Scope N_scope.
 
@@ -168,3 +168,19 @@ Theorem validator_loop_matches_source : forall l fuel, all_lt 256 l = true -> (l
             ST.Gen.Leaf.src_validate_utf8 fuel (ST.Utf.LoopBridge.arr8s l) (Z.of_nat (length l)) = Some (Z.of_N (cerr_code e)).
 Proof. exact ST.Utf.LoopBridgeValidate.validate_utf8_matches_source. Qed.
 Print Assumptions validator_loop_matches_source.
+
+(* ---- tie by translation, decoders: extract_utf8(const unsigned char *&, end) and extract_utf16(const char16_t *&, end) — the
+   decoding step of every UTF-8 / UTF-16 -> X conversion — are translated from the CURRENT headers into Gen/Leaf.v (the
+   advanced pointer is an index returned with the result).  For every non-empty suffix of units they return the code
+   point or in-band error mark the model decoders of every theorem above return, and consume the same number of units
+   (ext_ok: the model yields (ch, skipn k s) with 1 <= k <= length s, the translated function (ch, i + k), ch < 2^32) ---- *)
+Theorem decoders_match_source : forall s i p, s <> [] -> ST.Utf.LoopBridge.shows Z.of_N p i s ->
+  (all_lt 256 s = true ->
+     ST.Utf.LoopBridgeExtract.ext_ok (extract_utf8 s) (ST.Gen.Leaf.src_extract_utf8 p i (i + Z.of_nat (length s))%Z) s i) /\
+  (all_lt 65536 s = true ->
+     ST.Utf.LoopBridgeExtract.ext_ok (extract_utf16 s) (ST.Gen.Leaf.src_extract_utf16 p i (i + Z.of_nat (length s))%Z) s i).
+Proof.
+  exact (fun s i p Hne R => conj (fun A => ST.Utf.LoopBridgeExtract.extract_utf8_matches s i p Hne A R)
+                                 (fun A => ST.Utf.LoopBridgeExtract.extract_utf16_matches s i p Hne A R)).
+Qed.
+Print Assumptions decoders_match_source.
